@@ -213,13 +213,14 @@ def write_evidence(prop, tier, seed, out, wall):
         'wall_s': round(wall, 2),
         'violations': len(out.violations),
     }
-    os.makedirs(os.path.join(VERIF, 'evidence'), exist_ok=True)
-    with open(os.path.join(VERIF, 'evidence', prop + '.json'), 'w') as f:
+    evdir = os.environ.get('E57_EVIDENCE_DIR', os.path.join(VERIF, 'evidence'))
+    os.makedirs(evdir, exist_ok=True)
+    with open(os.path.join(evdir, prop + '.json'), 'w') as f:
         json.dump(ev, f, indent=1)
 
 
 def write_replay(prop, v):
-    d = os.path.join(VERIF, 'replays', prop)
+    d = os.path.join(os.environ.get('E57_REPLAY_DIR', os.path.join(VERIF, 'replays')), prop)
     os.makedirs(d, exist_ok=True)
     base = os.path.join(d, slug(v['obligation']))
     with open(base + '.txt', 'w') as f:
